@@ -40,6 +40,7 @@ class Leaf(KDDataset):
         self.log = log if log is not None else []
         self.disposed = 0
         self.leaf_marker = ("leaf-attr", tag)
+        self.class_names = [f"{tag}-class{c}" for c in range(self._n_classes)]  # an attribute name the library itself reads through wrapper chains
 
     def _norm(self, idx):
         i = int(idx)
